@@ -140,7 +140,13 @@ func showall(w io.Writer, e *yang.Entry) {
 		fmt.Fprintf(w, "\n%s\n  ", e.Node.Statement().Location())
 		printType(w, e.Type.Root, false)
 	}
-	for _, d := range e.Dir {
-		showall(w, d)
+	// In a fixed order, not in that of the map walk.
+	names := make([]string, 0, len(e.Dir))
+	for k := range e.Dir {
+		names = append(names, k)
+	}
+	sort.Strings(names)
+	for _, k := range names {
+		showall(w, e.Dir[k])
 	}
 }
